@@ -41,6 +41,11 @@ UNKNOWN_REGEX = re.compile(
 # Recognized register names
 REGISTERS = ["A", "B", "D", "X", "Y", "U", "S", "CC", "DP", "PC"]
 
+# Pattern to recognize the register part of an indexed operand
+INDEX_REGISTER_REGEX = re.compile(
+    r"^(-{0,2}[XYUS]|[XYUS]\+{0,2}|PCR)$"
+)
+
 # F U N C T I O N S ###########################################################
 
 
@@ -554,6 +559,9 @@ class ExtendedIndexedOperand(Operand):
                 max_size=size,
             )
 
+        if not INDEX_REGISTER_REGEX.match(self.right):
+            raise OperandTypeError("[{}] is not an index register".format(self.right))
+
         raw_post_byte = 0x80
         post_byte_choices = []
         size = self.instruction.mode.ind_sz
@@ -685,6 +693,9 @@ class IndexedOperand(Operand):
             raise OperandTypeError(
                 "Instruction [{}] does not support indexed addressing".format(self.instruction.mnemonic)
             )
+        if not INDEX_REGISTER_REGEX.match(self.right):
+            raise OperandTypeError("[{}] is not an index register".format(self.right))
+
         raw_post_byte = 0x00
         post_byte_choices = []
         size = self.instruction.mode.ind_sz
